@@ -175,6 +175,12 @@ def _execute(case, choices=None):
                 kw = {}
                 if call.get('timeout') is not None:
                     kw['timeout'] = call['timeout']     # the optional deadline (virtual clock: it never expires here)
+                if call.get('kw') == 'interface':
+                    kw['interface'] = IFACE             # the documented way to pick one of several interfaces
+                elif call.get('kw') == 'no-autostart':
+                    kw['autoStart'] = False
+                elif call.get('kw') == 'no-reply':
+                    kw['expectReply'] = False           # fire and forget: the Deferred fires at once with None
                 d = proxies[(ci, target)].callRemote(spec['name'], *args, **kw)
             except Exception as e:
                 out.append(Disc(exc_key(e, 'callRemote.raises'), exc_detail(e)))
@@ -202,7 +208,7 @@ def _execute(case, choices=None):
         # late results: fire the Deferreds the methods returned, then deliver again
         if state['deferreds']:
             for tok in sorted(state['deferreds']):
-                if results[tok]:
+                if results[tok] and case['calls'][tok - 1].get('kw') != 'no-reply':
                     out.append(Disc('result.before-deferred-fired', 'call %d completed with %r while its method is still '
                                     'pending' % (tok, results[tok])))
             for tok in sorted(state['deferreds'], reverse=bool(case.get('fire_reversed'))):
@@ -237,6 +243,10 @@ def _execute(case, choices=None):
                 out.append(Disc('result.count:%d' % min(len(res), 2), 'call %d: Deferred fired %d times' % (tok, len(res))))
                 continue
             r = res[0]
+            if call.get('kw') == 'no-reply':
+                if r is not None:
+                    out.append(Disc('result.no-reply-call', 'call %d made with expectReply=False completed with %r' % (tok, r)))
+                continue
             if oc['kind'] in ('value', 'deferred'):
                 want = _convention(spec['out'], oc['trees'])
                 if isinstance(r, Failure) or not R.nf_equal(r, want):
@@ -297,6 +307,9 @@ def classify(case):
         labels.append('concurrent_calls')
     if any(c.get('timeout') for c in case['calls']):
         labels.append('call_with_deadline')
+    for c in case['calls']:
+        if c.get('kw'):
+            labels.append('kw_' + c['kw'])
     if 'introspect' in case['proxy_modes'] or 'introspect-by-name' in case['proxy_modes']:
         nt = True
         labels.append('introspected_proxy')
@@ -334,7 +347,8 @@ def scenario(draw, tier, dfs=False):
         calls.append({'caller': draw(st.integers(0, 3)), 'method': mi,
                       'trees': [draw(S.tree_for(t, 2)) for t in R.split_inner(spec['in'])],
                       'pres': draw(S.presentation), 'outcome': oc,
-                      'timeout': draw(st.sampled_from([None, None, None, 30, 0]))})
+                      'timeout': draw(st.sampled_from([None, None, None, 30, 0])),
+                      'kw': draw(st.sampled_from([None, None, None, 'interface', 'no-autostart', 'no-reply']))})
     if dfs and len(calls) == 2 and draw(st.booleans()):
         # cross calls: both clients export, each calls the other
         calls[0]['target'], calls[1]['target'] = 0, 1
